@@ -463,100 +463,9 @@ Section WithBase64.
     | _ => dom0 ctx c j
     end.
 
-  (* ---------- the known defect classes of the pinned tree (DESIGN.md F8), decidable ---------- *)
-
-  Inductive known_class :=
-  | KLatin1Bytes          (* Latin-1 text of at most 150 characters whose UTF-8 form exceeds 150 bytes: rejected *)
-  | KFullDateYear         (* full-date with a year below 1000: leading zeros of the year dropped *)
-  | KFullDateSigned       (* "+YYYY-MM-DD" / "-YYYY-MM-DD": accepted and rewritten, not rejected *)
-  | KTDateRange           (* date-time whose UTC form lies outside years 0000..9999: panic *)
-  | KTDateLeap            (* second = 60: accepted (at a month end) and rewritten to :59 *)
-  | KTDateSeparator       (* a byte other than T, t, space between date and time: accepted *)
-  | KBiometricEmpty       (* the key "biometric_template_" with an empty type name: emitted *)
-  | KJurisdictionNull.    (* "issuing_jurisdiction": null is rejected; null means absent for every other optional field *)
-
-  Definition first_known (a c : option known_class) : option known_class :=
-    match a with Some _ => a | None => c end.
-
-  Definition known_full_date (s : bytes) : option known_class :=
-    match s with
-    | c :: r =>
-      if ((c =? 43) || (c =? 45)) && spec_full_date r then Some KFullDateSigned
-      else match spec_full_date_fields s with
-           | Some (y, _, _) => if (y <? 1000)%Z then Some KFullDateYear else None
-           | None => None
-           end
-    | [] => None
-    end.
-
-  Definition known_tdate (s : bytes) : option known_class :=
-    match tdate_fields s with
-    | Some (y, mo, d, h, mi, sec, off, sep) =>
-      if (sec =? 60)%Z then Some KTDateLeap
-      else if negb ((sep =? 84) || (sep =? 116) || (sep =? 32)) then Some KTDateSeparator
-      else if (valid_date y mo d && (h <=? 23) && (mi <=? 59) && (sec <=? 59))%Z then
-        let i := epoch_seconds y mo d h mi sec off in
-        if ((tdate_min <=? i) && (i <=? tdate_max))%Z then None else Some KTDateRange
-      else None
-    | None => None
-    end.
-
-  Fixpoint first_known_list {A} (f : A -> option known_class) (l : list A) : option known_class :=
-    match l with
-    | [] => None
-    | x :: r => first_known (f x) (first_known_list f r)
-    end.
-
-  (* known: the supplied value j (read with class c) falls in a known defect class *)
-  Definition known0 (c : vclass) (j : json) : option known_class :=
-    match c, j with
-    | VLatin1, JStr s => if spec_latin1 s && (150 <? blen s) then Some KLatin1Bytes else None
-    | VFullDate, JStr s => known_full_date s
-    | VTDate, JStr s => known_tdate s
-    | VTDateOrFullDate, JStr s => first_known (known_tdate s) (known_full_date s)
-    | _, _ => None
-    end.
-
-  Fixpoint known (fuel : nat) (n : ns) (c : vclass) (j : json) {struct fuel} : option known_class :=
-    match c with
-    | VArray c' | VNonEmptyArray c' =>
-      match fuel, j with
-      | S f, JArr js => first_known_list (known f n c') js
-      | _, _ => None
-      end
-    | VRecord name =>
-      match fuel, j with
-      | S f, JObj kvs =>
-        first_known_list (fun r =>
-          match jget (dm_id r) kvs with
-          | Some j' => known f n (dm_class r) j'
-          | None => None
-          end) (spec_struct n name)
-      | _, _ => None
-      end
-    | _ => known0 c j
-    end.
-
   Definition spec_fuel : nat := 8.
 
   (* a whole namespace record *)
-  Definition known_record (n : ns) (kvs : list (bytes * json)) : option known_class :=
-    first_known
-      (first_known_list (fun r =>
-         match dm_presence r with
-         | Family _ => None
-         | _ => match jget (dm_id r) kvs with
-                | Some j => known spec_fuel n (dm_class r) j
-                | None => None
-                end
-         end) (ns_dm n))
-      (match n with
-       | Mdl => first_known
-                  (match jget (b "biometric_template_") kvs with Some _ => Some KBiometricEmpty | None => None end)
-                  (match jget (b "issuing_jurisdiction") kvs with Some JNull => Some KJurisdictionNull | _ => None end)
-       | Aamva => None
-       end).
-
   Definition ns_den (n : ns) (kvs : list (bytes * json)) (out : list (bytes * cbor)) : bool :=
     record_den (den spec_fuel n kvs) (ns_dm n) kvs out.
 
